@@ -806,6 +806,96 @@ def evaluate_throttle_order(ctx, res, cases):
             res.nontrivial(json.dumps(c, sort_keys=True))
 
 
+def run_coincide_case(env, case):
+    """A handler's completion and the processing timeout of a request queued behind it fall into
+    ONE loop iteration (the loop was held up by a slow synchronous step just as the handler was
+    released): the queued request's task is cancelled after the leaving handler has handed it the
+    slot but before it has run again.  The slot must not be lost: a burst sent to the then idle
+    session has to find all `limit` slots and be served.  Oracle only (below the granularity of the
+    session scripts; the limiter-level composite step `y` is the modelled counterpart)."""
+    L, kind = case['init'], case.get('kind', 'rpc')
+    attrs = dict(processing_timeout=case['ptimeout'], error_base_cost=0.0, bw_cost_per_byte=0.0)
+    rig = SessRig(env, L, attrs, kind=kind)
+    key = why = None
+
+    def fail(kk, w):
+        nonlocal key, why
+        if why is None:
+            key, why = kk, w
+
+    loop = env.loop
+    q = case['queued']
+    rig.feed([(i, True) for i in range(L + q)], False)
+    env.idle()
+    if len(rig.hold) != L:
+        env.close_loop()
+        env.new_loop()
+        return key, why, dict(skipped=1, hit=0)
+    eps = 0.015625
+
+    def release_and_stall():
+        # the handlers are released, and the same callback holds the loop up past the deadline of
+        # the queued requests: their timeouts are processed right after the handlers' exits
+        for i in list(rig.hold)[:case['leave']]:
+            rig.gate[i].set_result(None)
+        loop._vtime += 2 * eps
+    loop.call_at(case['ptimeout'] - eps, release_and_stall)
+    env.advance(case['ptimeout'] + 1)
+    for i in list(rig.hold):
+        if not rig.gate[i].done():
+            rig.gate[i].set_result(None)
+    env.advance(case['ptimeout'] + 1)
+    hit = len([i for i in range(L, L + q) if i not in rig.started_at])
+    base, m = 1000, L + 2
+    rig.feed([(base + j, True) for j in range(m)], False)
+    env.idle()
+    if len(rig.hold) > L:
+        fail('c13:exceeds-max-limit', f'{len(rig.hold)} handlers in flight, limit {L}')
+    if len(rig.hold) < min(m, L):
+        fail('c13:permit-lost',
+             f'{case["leave"]} handler(s) finished in the same loop iteration in which the processing timeout '
+             f'({case["ptimeout"]}s) of the {q} request(s) queued behind them fired; a burst of {m} requests to the '
+             f'then idle session (limit {L}) has only {len(rig.hold)} handlers running, '
+             f'{len([w for w in rig.waiting if w >= base])} waiting')
+    guard = 0
+    while rig.hold and guard < 100:
+        rig.gate[rig.hold[0]].set_result(None)
+        env.idle()
+        guard += 1
+    left = [w for w in rig.waiting if w >= base]
+    if left:
+        fail('c13:not-served', f'requests {left} of the later burst never handled although every handler finished')
+    env.close_loop()
+    env.new_loop()
+    return key, why, dict(skipped=0, hit=hit)
+
+
+def coincide_cases(rng, count):
+    out = []
+    for c in range(count):
+        L = [1, 2, 3][c % 3]
+        out.append(dict(init=L, queued=rng.randint(1, 3), leave=rng.randint(1, L), ptimeout=rng.choice([0.5, 2.0, 30.0]),
+                        kind='msg' if c % 4 == 3 else 'rpc'))
+    return out
+
+
+def _co_batch(cases):
+    return [run_coincide_case(_env, c) for c in cases]
+
+
+def evaluate_coincide(ctx, res, cases):
+    results = _pmap(ctx, _co_batch, cases, chunk=20)
+    for case, (key, why, stats) in zip(cases, results):
+        c = dict(case, level='coincide')
+        if why:
+            res.violation(key, c, why)
+        res['evaluations'] += 1
+        res.count('coincide_cases')
+        res.count('coincide_queued_requests_timed_out_in_the_iteration_of_the_exit', stats['hit'])
+        if stats['hit']:
+            res.nontrivial(json.dumps(c, sort_keys=True))
+
+
 def _task_no(t):
     name = t.get_name()
     return int(name.rsplit('-', 1)[1]) if '-' in name and name.rsplit('-', 1)[1].isdigit() else 0
@@ -1057,6 +1147,8 @@ def run(ctx):
     evaluate_throttle_order(ctx, res, throttle_order_cases(rng, nto))
     ntd = 56
     evaluate_teardown(ctx, res, teardown_cases(rng, ntd))
+    nco = 24
+    evaluate_coincide(ctx, res, coincide_cases(rng, nco))
     nsess = 300
     sres = _pmap(ctx, _sess_batch, [random_session_script(rng) for _ in range(nsess)], chunk=100)
     check_session_results(ctx, res, sres)
@@ -1088,6 +1180,7 @@ def run(ctx):
     res['scopes']['session_timeout_while_throttled'] = ntt
     res['scopes']['session_arrival_order_while_throttled'] = nto
     res['scopes']['session_handlers_ended_from_outside'] = ntd
+    res['scopes']['session_exit_and_queue_timeout_in_one_iteration'] = nco
     for init, script, _kd, ops, recs, _k, _w, _c in sres[:2]:
         res.sample({'level': 'session', 'case': fmt_case(init, ops)[:300],
                     'impl': ' | '.join(r for r in recs if r)[:400]})
@@ -1101,6 +1194,8 @@ def replay(ctx, case):
     _init(ctx.repo)
     if case.get('level') == 'throttle-timeout':
         evaluate_throttle_timeout(ctx, res, [{k: v for k, v in case.items() if k != 'level'}])
+    elif case.get('level') == 'coincide':
+        evaluate_coincide(ctx, res, [{k: v for k, v in case.items() if k != 'level'}])
     elif case.get('level') == 'teardown':
         c = {k: v for k, v in case.items() if k != 'level'}
         c['bursts'] = [tuple(b) for b in c['bursts']]
